@@ -375,8 +375,44 @@ class Inliner:
         self.expanded.append(callee.qual)
         return body
 
+    def hoist(self, st, caller, names, stack):
+        """`g(h())` with h an inlinable helper -> `t = h(); g(t)`: exact when nothing with a side effect is evaluated
+        before h() in the statement (the callee expression and the earlier arguments are names / attribute chains /
+        constants).  Returns the list of new assignments (st is edited in place)."""
+        outer = None
+        if isinstance(st, (ast.Expr, ast.Assign, ast.Return)) and isinstance(getattr(st, "value", None), ast.Call):
+            outer = st.value
+        if outer is None or not _simple(outer.func):
+            return []
+        pre = []
+        for i, a in enumerate(list(outer.args)):
+            if isinstance(a, ast.Call) and not isinstance(a, ast.Starred):
+                callee, recv = self.resolve(a, caller)
+                if callee is not None and self.eligible(callee, a, stack + [self.f.qual]) and all(_simple(x) for x in outer.args[:i]):
+                    self.count += 1
+                    nm = "%s__arg%d" % (callee.name.strip("_"), self.count)
+                    while nm in names:
+                        self.count += 1
+                        nm = "%s__arg%d" % (callee.name.strip("_"), self.count)
+                    tgt = ast.copy_location(ast.Name(id=nm, ctx=ast.Store()), a)
+                    pre.append(ast.copy_location(ast.Assign(targets=[tgt], value=a, type_comment=None), st))
+                    outer.args[i] = ast.copy_location(ast.Name(id=nm, ctx=ast.Load()), a)
+                    names.add(nm) if isinstance(names, set) else None
+                else:
+                    break
+            elif not _simple(a):
+                break
+        return pre
+
     def block(self, body, caller, names, stack):
         out = []
+        body = list(body)
+        k = 0
+        while k < len(body):
+            pre = self.hoist(body[k], caller, names, stack)
+            if pre:
+                body[k:k] = pre
+            k += len(pre) + 1
         for st in body:
             rep = self.expand_stmt(st, caller, names, stack)
             if rep is not None:
@@ -726,6 +762,8 @@ def reference_table(program):
         keys = {k: v for k, v in keys.items() if not _trivial_key(k)}
         a = f.node.args
         tab[q] = {"params": [x.arg for x in a.posonlyargs + a.args + a.kwonlyargs], "keys": keys}
+    tab["__globals__"] = {m.name: sorted(m.globals) for m in program.modules.values()}
+    tab["__classattrs__"] = {c.qual: sorted(c.attrs) for c in program.classes.values()}
     return tab
 
 
@@ -775,9 +813,17 @@ def _merge_safe(fnode, old, new):
     the other is dead (classic live-range test on the CFG), neither is a
     parameter, global, closure variable or used in a nested scope."""
     from .cfg import CFG
+    new_is_param = False
     for n in ast.walk(fnode):
-        if isinstance(n, ast.arg) and n.arg in (old, new):
+        if isinstance(n, ast.arg) and n.arg == old:
             return False
+        if isinstance(n, ast.arg) and n.arg == new:
+            # merging into a parameter of this very function is fine (its live range starts at entry)
+            a_ = fnode.args
+            if n in a_.posonlyargs + a_.args + a_.kwonlyargs:
+                new_is_param = True
+            else:
+                return False
         if isinstance(n, (ast.Global, ast.Nonlocal)) and (old in n.names or new in n.names):
             return False
         if isinstance(n, ast.ExceptHandler) and n.name in (old, new):
@@ -786,7 +832,7 @@ def _merge_safe(fnode, old, new):
             if any(isinstance(m, ast.Name) and m.id in (old, new) for m in ast.walk(n)):
                 return False
     bound = _bound_names(fnode)
-    if old not in bound or new not in bound:
+    if old not in bound or (new not in bound and not new_is_param):
         return False
     try:
         g = CFG(fnode, "?")
@@ -838,7 +884,7 @@ def _merge_safe(fnode, old, new):
             return False
     # both must be dead on entry (no read before a binding)
     ent = use[g.entry.id] | live_out[g.entry.id]
-    if old in ent or new in ent:
+    if old in ent or (new in ent and not new_is_param):
         return False
     return True
 
@@ -971,7 +1017,8 @@ def inline_new_temps(func, keep_names=()):
             for x in n.names:
                 binds[x] = binds.get(x, 0) + 2
     cands = {nm for nm, c in binds.items() if c == 1 and loads.get(nm, 0) == 1 and nm not in keep}
-    if not cands:
+    joins = {nm for nm, c in binds.items() if c == 2 and loads.get(nm, 0) == 1 and nm not in keep}
+    if not cands and not joins:
         return func
     node = _copy(fn0)
     changed = [False]
@@ -1012,6 +1059,32 @@ def inline_new_temps(func, keep_names=()):
             return True
         return False
 
+    def try_join(s, nxt):
+        """if c: ...; t = A  else: ...; t = B   followed by one statement reading t once: the statement moves into both
+        arms with t replaced (a conditional expression split earlier, or its hand-written form)."""
+        if not (isinstance(s, ast.If) and s.body and s.orelse):
+            return False
+        la, lb = s.body[-1], s.orelse[-1]
+        if not all(isinstance(x, ast.Assign) and len(x.targets) == 1 and isinstance(x.targets[0], ast.Name) for x in (la, lb)):
+            return False
+        nm = la.targets[0].id
+        if lb.targets[0].id != nm or nm in keep or binds.get(nm) != 2 or loads.get(nm, 0) != 1:
+            return False
+        import copy as _c
+        a2, b2 = _copy(nxt), _copy(nxt)
+        ok = True
+        for arm, last, cp in ((s.body, la, a2), (s.orelse, lb, b2)):
+            fake = ast.Assign(targets=[ast.Name(id=nm, ctx=ast.Store())], value=last.value, type_comment=None)
+            cands.add(nm)
+            if not try_pair(fake, cp):
+                ok = False
+            cands.discard(nm)
+        if not ok:
+            return False
+        s.body[-1] = a2
+        s.orelse[-1] = b2
+        return True
+
     def block(body):
         i = 0
         while i < len(body):
@@ -1021,6 +1094,10 @@ def inline_new_temps(func, keep_names=()):
                 changed[0] = True
                 if i > 0:
                     i -= 1
+                continue
+            if i + 1 < len(body) and try_join(s, body[i + 1]):
+                del body[i + 1]
+                changed[0] = True
                 continue
             for fld in ("body", "orelse", "finalbody"):
                 sub = getattr(s, fld, None)
@@ -1149,8 +1226,18 @@ def split_conditional_expressions(func):
     def conv(s):
         v = getattr(s, "value", None)
         if isinstance(s, (ast.Assign, ast.Return, ast.Expr)) and isinstance(v, ast.IfExp):
-            if isinstance(s, ast.Assign) and not all(isinstance(t, ast.Name) for t in s.targets):
-                return None  # target sub-expressions would be evaluated after the arms either way; keep it simple
+            def simple_target(t):
+                # the target's own sub-expressions are evaluated after the value either way; with names and constants
+                # only, nothing can interfere
+                if isinstance(t, ast.Name):
+                    return True
+                if isinstance(t, ast.Attribute):
+                    return _simple(t.value)
+                if isinstance(t, ast.Subscript):
+                    return _simple(t.value) and (_simple(t.slice) or isinstance(t.slice, ast.Constant))
+                return False
+            if isinstance(s, ast.Assign) and not all(simple_target(t) for t in s.targets):
+                return None
             a, b = _copy(s), _copy(s)
             a.value, b.value = v.body, v.orelse
             new = ast.If(test=v.test, body=block([a]), orelse=block([b]))
@@ -1271,6 +1358,335 @@ def loops_from_quantifiers(func):
     node.body = block(node.body)
     if not changed[0]:
         return func
+    ast.fix_missing_locations(node)
+    nf = Func(func.qual, node, func.module, func.cls, func.parent)
+    nf.inlined_from = list(getattr(func, "inlined_from", []))
+    return nf
+
+
+# ---------------------------------------------------------------------------
+# for x in (y for y in it if cond): body    ->    for y in it: if cond: body
+# ---------------------------------------------------------------------------
+def loops_from_filtered_generators(func):
+    """A `for` over a generator expression that merely filters another iterable
+    (element == bound variable, one generator clause) is the loop over that
+    iterable with the body under the filter.  Exact: a generator expression is
+    consumed lazily, one element per iteration of the outer loop, so the
+    filter and the body interleave in the same order either way."""
+    def is_filter(it):
+        return isinstance(it, ast.GeneratorExp) and len(it.generators) == 1 and not it.generators[0].is_async \
+            and isinstance(it.elt, ast.Name) and isinstance(it.generators[0].target, ast.Name) and it.elt.id == it.generators[0].target.id
+    if not any(isinstance(n, ast.For) and is_filter(n.iter) for n in walk_own(func.node)):
+        return func
+    node = _copy(func.node)
+    changed = [False]
+
+    def block(body):
+        out = []
+        for s in body:
+            for fld in ("body", "orelse", "finalbody"):
+                sub = getattr(s, fld, None)
+                if isinstance(sub, list) and sub and isinstance(sub[0], ast.stmt) and not isinstance(s, (ast.FunctionDef, ast.AsyncFunctionDef, ast.ClassDef)):
+                    setattr(s, fld, block(sub))
+            if isinstance(s, ast.Try):
+                for h in s.handlers:
+                    h.body = block(h.body)
+            if isinstance(s, ast.For) and is_filter(s.iter) and isinstance(s.target, ast.Name) and not s.orelse:
+                gen = s.iter.generators[0]
+                inner, outer = gen.target.id, s.target.id
+                # the outer loop variable takes the generator's name: it must not be used for anything else
+                others = [m for m in ast.walk(node) if isinstance(m, ast.Name) and m.id == inner and not any(m is y for y in ast.walk(s))]
+                if inner != outer and others:
+                    out.append(s)
+                    continue
+                if inner != outer:
+                    for m in ast.walk(s):
+                        if isinstance(m, ast.Name) and m.id == outer:
+                            m.id = inner
+                body2 = s.body
+                if gen.ifs:
+                    cond = gen.ifs[0] if len(gen.ifs) == 1 else ast.copy_location(ast.BoolOp(op=ast.And(), values=list(gen.ifs)), gen.ifs[0])
+                    body2 = [ast.copy_location(ast.If(test=cond, body=s.body, orelse=[]), s)]
+                tgt = ast.copy_location(ast.Name(id=inner, ctx=ast.Store()), s.target)
+                out.append(ast.copy_location(ast.For(target=tgt, iter=gen.iter, body=body2, orelse=[], type_comment=None), s))
+                changed[0] = True
+                continue
+            out.append(s)
+        return out
+    node.body = block(node.body)
+    if not changed[0]:
+        return func
+    ast.fix_missing_locations(node)
+    nf = Func(func.qual, node, func.module, func.cls, func.parent)
+    nf.inlined_from = list(getattr(func, "inlined_from", []))
+    return nf
+
+
+# ---------------------------------------------------------------------------
+# constants the reference tree does not have
+# ---------------------------------------------------------------------------
+def _literal(v):
+    """AST of an immutable constant value, or None."""
+    def ok(x):
+        if isinstance(x, (bytes, str, int, bool, type(None))) and not isinstance(x, float):
+            return True
+        return isinstance(x, tuple) and all(ok(y) for y in x)
+    if not ok(v):
+        return None
+    try:
+        return ast.parse(repr(v), mode="eval").body
+    except SyntaxError:
+        return None
+
+
+def new_constants(program, table):
+    """({module name: {global name: literal ast}}, {class qual: {attr: literal ast}}) for module-level / class-level
+    names bound (once) to an immutable constant that the reference tree does not define: 'a literal was given a name'."""
+    from .model import NotConst
+    refg = table.get("__globals__")
+    refc = table.get("__classattrs__")
+    gl, ca = {}, {}
+    if refg is None or refc is None:
+        return gl, ca
+    for m in program.modules.values():
+        known = set(refg.get(m.name, ()))
+        if m.name not in refg:
+            continue
+        for name, expr in m.globals.items():
+            if name in known:
+                continue
+            # bound exactly once at module level, never declared global in a function
+            nb = sum(1 for st in m.toplevel if isinstance(st, (ast.Assign, ast.AnnAssign)) for t in (st.targets if isinstance(st, ast.Assign) else [st.target])
+                     for y in ast.walk(t) if isinstance(y, ast.Name) and y.id == name)
+            if nb != 1 or any(isinstance(x, ast.Global) and name in x.names for x in ast.walk(m.tree)):
+                continue
+            try:
+                v = program.fold(expr, m)
+            except (NotConst, Exception):
+                continue
+            lit = _literal(v)
+            if lit is not None:
+                gl.setdefault(m.name, {})[name] = lit
+    stored = {n.attr for m in program.modules.values() for n in ast.walk(m.tree) if isinstance(n, ast.Attribute) and isinstance(n.ctx, (ast.Store, ast.Del))}
+    for c in program.classes.values():
+        if c.qual not in refc:
+            continue
+        known = set(refc.get(c.qual, ()))
+        for name, expr in c.attrs.items():
+            if name in known or name in stored or name in c.methods:
+                continue
+            if any(name in sub.attrs or name in sub.methods for sub in c.all_subclasses()) or any(name in b.attrs for b in c.mro[1:]):
+                continue
+            try:
+                v = program.fold(expr, c.module)
+            except (NotConst, Exception):
+                continue
+            lit = _literal(v)
+            if lit is not None:
+                ca.setdefault(c.qual, {})[name] = lit
+    return gl, ca
+
+
+def inline_new_constants(func, gl, ca):
+    """Replace reads of such names in func by the literal."""
+    mg = gl.get(func.module.name, {})
+    owner = func
+    while owner.parent is not None:
+        owner = owner.parent
+    cattrs = {}
+    if owner.cls is not None:
+        for c in owner.cls.mro:
+            for k, v in ca.get(c.qual, {}).items():
+                cattrs.setdefault(k, (c, v))
+    if not mg and not cattrs:
+        return func
+    bound = _bound_names(func.node) | set(func.params) | set(func.kwonly) | {func.vararg, func.kwarg}
+    g = func.parent
+    while g is not None:
+        bound |= _bound_names(g.node) | set(g.params) | set(g.kwonly) | {g.vararg, g.kwarg}
+        g = g.parent
+    sname = owner.params[0] if (owner.cls is not None and owner.params and not owner.is_staticmethod) else None
+    hits = [n for n in ast.walk(func.node) if (isinstance(n, ast.Name) and isinstance(n.ctx, ast.Load) and n.id in mg and n.id not in bound)
+            or (isinstance(n, ast.Attribute) and isinstance(n.ctx, ast.Load) and n.attr in cattrs and isinstance(n.value, ast.Name)
+                and (n.value.id == sname or n.value.id in [c.name for c in owner.cls.mro]))] if True else []
+    if not hits:
+        return func
+    node = _copy(func.node)
+
+    class S(ast.NodeTransformer):
+        def visit_Name(self, n):
+            if isinstance(n.ctx, ast.Load) and n.id in mg and n.id not in bound:
+                new = _copy(mg[n.id])
+                for y in ast.walk(new):
+                    ast.copy_location(y, n)
+                return new
+            return n
+
+        def visit_Attribute(self, n):
+            if isinstance(n.ctx, ast.Load) and n.attr in cattrs and isinstance(n.value, ast.Name) and (n.value.id == sname or n.value.id in [c.name for c in owner.cls.mro]):
+                new = _copy(cattrs[n.attr][1])
+                for y in ast.walk(new):
+                    ast.copy_location(y, n)
+                return new
+            self.generic_visit(n)
+            return n
+    node = S().visit(node)
+    ast.fix_missing_locations(node)
+    nf = Func(func.qual, node, func.module, func.cls, func.parent)
+    nf.inlined_from = list(getattr(func, "inlined_from", []))
+    return nf
+
+
+# ---------------------------------------------------------------------------
+# locals that are always the current value of an attribute
+# ---------------------------------------------------------------------------
+def _attr_alias_candidates(fnode):
+    """{local: attribute chain text} for locals whose every binding is `x = self.A` or the chained
+    `x = self.A = E` / `self.A = x = E` (A possibly re-bound elsewhere: the general case of an alias)."""
+    a = fnode.args
+    params = {y.arg for y in a.posonlyargs + a.args + a.kwonlyargs} | ({a.vararg.arg} if a.vararg else set()) | ({a.kwarg.arg} if a.kwarg else set())
+    forms = {}
+    other = set()
+    for n in walk_own(fnode):
+        if isinstance(n, ast.Assign):
+            names = [t for t in n.targets if isinstance(t, ast.Name)]
+            attrs = [t for t in n.targets if isinstance(t, ast.Attribute) and isinstance(t.value, ast.Name) and t.value.id in params]
+            if names and len(n.targets) == 1 and isinstance(n.value, ast.Attribute) and isinstance(n.value.value, ast.Name) and n.value.value.id in params:
+                forms.setdefault(names[0].id, set()).add(ast.unparse(n.value))
+                continue
+            if len(names) == 1 and len(attrs) == 1 and len(n.targets) == 2:
+                forms.setdefault(names[0].id, set()).add(ast.unparse(attrs[0]))
+                continue
+            for t in n.targets:
+                for y in ast.walk(t):
+                    if isinstance(y, ast.Name) and isinstance(y.ctx, ast.Store):
+                        other.add(y.id)
+        else:
+            for fld in ("target", "optional_vars", "name"):
+                t = getattr(n, fld, None)
+                if isinstance(t, str):
+                    other.add(t)
+                elif isinstance(t, ast.AST) and not isinstance(n, ast.Assign):
+                    for y in ast.walk(t):
+                        if isinstance(y, ast.Name) and isinstance(y.ctx, (ast.Store, ast.Del)):
+                            other.add(y.id)
+    return {x: next(iter(v)) for x, v in forms.items() if len(v) == 1 and x not in other and x not in params}
+
+
+def expand_attribute_aliases(func, keep_names, may_write):
+    """Replace a local that provably always equals `self.A` at each of its reads by `self.A`.
+    may_write(call node, attr) -> bool says whether a call may re-bind attribute A of the receiver's class
+    (decided on the call graph of the tree as it is).  Locals the reference tree has are left alone."""
+    from .cfg import CFG
+    cands = {x: ch for x, ch in _attr_alias_candidates(func.node).items() if x not in keep_names}
+    if not cands:
+        return func
+    node = _copy(func.node)
+    try:
+        g = CFG(node, "?")
+    except Exception:
+        return func
+    done = False
+    for x, chain in sorted(cands.items()):
+        attr = chain.split(".")[-1]
+        # must-alias dataflow: fact holds after the alias bindings, dies at stores to .attr and at calls that may write it
+        IN = {g.entry.id: False}
+        work = [g.entry]
+
+        def transfer(n, label):
+            h = IN[n.id]
+            a = n.ast
+            if a is None or n.kind in ("dispatch", "join", "handler", "with_exit", "branch"):
+                return h
+            roots = [a]
+            if n.kind == "iter":
+                roots = [a.target]
+            elif n.kind == "with_enter":
+                roots = [i.context_expr for i in a.items]
+            gen = False
+            for r in roots:
+                if isinstance(r, (ast.FunctionDef, ast.AsyncFunctionDef, ast.ClassDef)):
+                    continue
+                for y in ast.walk(r):
+                    if isinstance(y, ast.Call) and may_write(y, attr):
+                        h = False
+                    if isinstance(y, ast.Attribute) and y.attr == attr and isinstance(y.ctx, (ast.Store, ast.Del)):
+                        h = False
+                if isinstance(r, ast.Assign):
+                    names = [t for t in r.targets if isinstance(t, ast.Name) and t.id == x]
+                    if names:
+                        if len(r.targets) == 1 and ast.unparse(r.value) == chain:
+                            gen = True
+                        elif len(r.targets) == 2 and any(isinstance(t, ast.Attribute) and ast.unparse(t) == chain for t in r.targets):
+                            gen = True
+            if gen and label != "exc":
+                h = True
+            return h
+        while work:
+            n = work.pop()
+            for (sx, label) in n.succ:
+                h = transfer(n, label)
+                old = IN.get(sx.id)
+                new = h if old is None else (old and h)
+                if new != old:
+                    IN[sx.id] = new
+                    work.append(sx)
+        ok = True
+        for n in g.nodes:
+            if n.id not in IN or n.ast is None or n.kind in ("dispatch", "join", "handler", "with_exit", "branch"):
+                continue
+            roots = [n.ast] if n.kind != "iter" else [n.ast.iter]
+            if n.kind == "with_enter":
+                roots = [i.context_expr for i in n.ast.items]
+            for r in roots:
+                if isinstance(r, (ast.FunctionDef, ast.AsyncFunctionDef, ast.ClassDef)):
+                    if any(isinstance(y, ast.Name) and y.id == x for y in ast.walk(r)):
+                        ok = False
+                    continue
+                for y in ast.walk(r):
+                    if isinstance(y, ast.Name) and y.id == x and isinstance(y.ctx, ast.Load) and not IN[n.id]:
+                        ok = False
+        if not ok:
+            continue
+        # rewrite: reads become the chain, `x = self.A` disappears, `x = self.A = E` keeps the attribute store
+        chain_ast = ast.parse(chain, mode="eval").body
+
+        class S(ast.NodeTransformer):
+            def visit_Name(self, n2):
+                if n2.id == x and isinstance(n2.ctx, ast.Load):
+                    new = _copy(chain_ast)
+                    for y in ast.walk(new):
+                        ast.copy_location(y, n2)
+                    return new
+                return n2
+
+            def visit_Assign(self, n2):
+                names = [t for t in n2.targets if isinstance(t, ast.Name) and t.id == x]
+                if names:
+                    if len(n2.targets) == 1:
+                        return None
+                    n2.targets = [t for t in n2.targets if not (isinstance(t, ast.Name) and t.id == x)]
+                self.generic_visit(n2)
+                return n2
+
+            def visit_FunctionDef(self, n2):
+                if n2 is node:
+                    self.generic_visit(n2)
+                return n2
+        S().visit(node)
+        done = True
+        try:
+            g = CFG(node, "?")
+        except Exception:
+            return func
+    if not done:
+        return func
+    # an `if`/loop body emptied by a dropped assignment needs a pass
+    for n in ast.walk(node):
+        for fld in ("body", "orelse"):
+            sub = getattr(n, fld, None)
+            if isinstance(sub, list) and fld == "body" and not sub and isinstance(n, (ast.If, ast.For, ast.While, ast.With, ast.Try, ast.FunctionDef)):
+                sub.append(ast.Pass())
     ast.fix_missing_locations(node)
     nf = Func(func.qual, node, func.module, func.cls, func.parent)
     nf.inlined_from = list(getattr(func, "inlined_from", []))
